@@ -8,7 +8,14 @@ import vlib
 LEVEL = "model_checking"
 XN = ["xMin", "xMid", "xMax"]
 YN = ["YMin", "YMid", "YMax"]
-SEPS = [" ", ",", " , ", "  ", ", "]
+SEPS = [" ", ",", " , ", "  ", ", ", "\t", "\n "]
+NVAR = 112                     # 4 case styles x 7 separators x defer x leading space; the size factors and number formats ride on the same index
+# exact (dyadic) size factors (viewBox numbers, document size): sizes are not integers in real documents ("0 0 8.5 11", width 793.7)
+FACTORS = [(1, 1), (0.125, 1), (1, 0.375), (2.5, 0.125)]
+
+
+def factors(variant):
+    return FACTORS[(variant // 28) % 4]
 
 
 def _pu():
@@ -19,9 +26,10 @@ def _pu():
 def render_par(al, mos, variant):
     """preserveAspectRatio text for an align (pair or [9,9] = none) and meet/slice/absent, in a syntactic variant"""
     name = "none" if al[0] == 9 else XN[al[0]] + YN[al[1]]
-    case, sep, defer, lead = variant % 3, SEPS[(variant // 3) % len(SEPS)], (variant // 15) % 2, (variant // 30) % 2
-    name = [name, name.lower(), name.upper()][case]
-    toks = (["defer"] if defer else []) + [name] + ([] if mos == "absent" else [[mos, mos.upper(), mos.capitalize()][case]])
+    case, sep, defer, lead = variant % 4, SEPS[(variant // 4) % len(SEPS)], (variant // 28) % 2, (variant // 56) % 2
+    name = [name, name.lower(), name.upper(), name.lower()][case]
+    toks = ([["defer", "defer", "DEFER", "Defer"][case]] if defer else []) + [name] + \
+        ([] if mos == "absent" else [[mos, mos.upper(), mos.capitalize(), mos.upper()][case]])
     if mos == "absent" and al == [1, 1] and not defer and variant % 7 == 0:
         return None                               # attribute absent altogether: xMidYMid meet
     s = sep.join(toks)
@@ -39,12 +47,19 @@ def render_vb(kind, minx, miny, w, h, variant):
         return ["%d %d abc %d" % (minx, miny, h), "a b c d", "%d %d %d px" % (minx, miny, w), "0 0 1e 5"][variant % 4]
     if kind == "zero_width":
         w = 0
+    if kind == "zero_height":
+        h = 0
     if kind == "negative_height":
         h = -h
+    if kind == "negative_width":
+        w = -w
     if kind == "negative_both":
         w, h = -w, -h
     sep = SEPS[variant % len(SEPS)]
-    fmt = ["%d", "%.1f", "%d", "%.3f"][(variant // 5) % 4]
+    fv = factors(variant)[0]
+    if fv != 1:
+        return sep.join(repr(float(v * fv)) for v in (minx, miny, w, h))          # exact: dyadic factor
+    fmt = ["%d", "%.1f", "%d", "%.3f"][(variant // 7) % 4]
     return sep.join(fmt % v for v in (minx, miny, w, h))
 
 
@@ -55,6 +70,14 @@ def doc_size(kind, W, H, variant):
         H = -H
     if kind == "negative_doc_both":
         W, H = -W, -H
+    if kind == "zero_doc_height":
+        H = 0
+    if kind == "negative_doc_width":
+        W = -W
+    fd = factors(variant)[1]
+    if fd != 1:
+        conv = [float, repr][variant % 2]
+        return conv(float(W * fd)), conv(float(H * fd))
     conv = [int, float, str][variant % 3]
     return conv(W), conv(H)
 
@@ -81,7 +104,10 @@ def call_and_judge(pu, kind, vbv, al, mos, exp, variant):
         if (sx, sy, ox, oy) != (1.0, 1.0, 0.0, 0.0):
             return case, ("viewbox.malformed_yields_identity", [1, 1, 0, 0], [sx, sy, ox, oy])
         return case, None
-    esx, esy, etx, ety = rat(exp["sx"]), rat(exp["sy"]), rat(exp["tx"]), rat(exp["ty"])
+    # the abstract answer is homogeneous: viewBox numbers x fv and document size x fd scale the ratio by fd/fv and the landing point by fd
+    fv, fd = factors(variant)
+    esx, esy, etx, ety = rat(exp["sx"]) * fd / fv, rat(exp["sy"]) * fd / fv, rat(exp["tx"]) * fd, rat(exp["ty"]) * fd
+    minx, miny, w, h, W, H = minx * fv, miny * fv, w * fv, h * fv, W * fd, H * fd
     scale = max(1.0, abs(W), abs(H), abs(w * esx), abs(h * esy))
     if not (math.isclose(sx, esx, rel_tol=1e-12) and math.isclose(sy, esy, rel_tol=1e-12)):
         return case, ("viewbox.scale", [esx, esy], [sx, sy])
@@ -105,7 +131,7 @@ def run(ctx):
     for st in vlib.read_dump(dump + ".dump", only={"vb", "al", "mos", "kind", "exp"}):
         n += 1
         kinds[st["kind"]] = kinds.get(st["kind"], 0) + 1
-        reps = range(60) if st["kind"] != "ok" and n % 5 == 0 else [(n * 7 + k * 13) % 60 for k in range(nvar)]
+        reps = range(NVAR) if st["kind"] != "ok" and n % 5 == 0 else [(n * 7 + k * 37) % NVAR for k in range(nvar)]
         for variant in reps:
             ctx.count((st["kind"], tuple(st["vb"]), tuple(st["al"]), st["mos"], variant))
             case, bad = call_and_judge(pu, st["kind"], st["vb"], st["al"], st["mos"], st["exp"], variant)
@@ -134,7 +160,7 @@ def run(ctx):
             W, H = h, w
         al = [9, 9] if rng.random() < 0.1 else [rng.randint(0, 2), rng.randint(0, 2)]
         evs.append({"minx": rng.randint(-S, S), "miny": rng.randint(-S, S), "w": w, "h": h, "W": W, "H": H, "ax": al[0], "ay": al[1],
-                    "mos": rng.choice(["meet", "slice", "absent"]), "kind": "ok", "variant": rng.randint(0, 59)})
+                    "mos": rng.choice(["meet", "slice", "absent"]), "kind": "ok", "variant": rng.randint(0, NVAR - 1)})
     exps, stats = vlib.judge_events(os.path.join(ctx.workdir, "v"), "ViewBoxTrace", "ViewBoxTrace.cfg", evs)
     ctx.states += stats["distinct"]
     ctx.transitions += stats["generated"]
@@ -149,11 +175,11 @@ def run(ctx):
     ctx.sample({"mode": "V", "event": evs[0], "abstract": exps[0]})
     ctx.stage("V", kind="code->spec", events=nv, rejected=rej)
     ctx.trusted += ["TLC 1.8", "Rat.tla", "harness rendering of the attribute text variants and float-vs-rational comparison (rel 1e-12 / abs 1e-9*scale)", "vlib parser"]
-    ctx.assumptions += ["integer viewBox/document sizes (exact rationals in the spec); the result is judged through the map x -> (x+o)*s, not field by field",
+    ctx.assumptions += ["viewBox/document sizes are integers times an exact dyadic factor (1, 1/8, 3/8, 5/2; the spec's exact rationals scale homogeneously); the result is judged through the map x -> (x+o)*s, not field by field",
                         "unknown align words, more than four viewBox numbers and units inside the viewBox are outside the statement"]
     return ctx.finish(
-        rule="G: every (min-x,min-y,w,h,W,H) x {none + 9 aligns} x {meet,slice,absent} of the TLC universe plus 8 malformed kinds, each rendered in "
-             "2-3 of 60 syntactic variants (case, separators, defer, leading space, number format; all 60 for malformed kinds); V: random integers up to 1000; "
+        rule="G: every (min-x,min-y,w,h,W,H) x {none + 9 aligns} x {meet,slice,absent} of the TLC universe plus 14 malformed kinds (each also with none and slice), each rendered in "
+             "2-3 of 112 variants (case incl. mixed, 7 separators incl. tab/newline, defer, leading space, number format, 4 non-integer size factors; all 112 for a fifth of the malformed vectors); V: random integers up to 1000; "
              "distinct = distinct (vector, variant)",
         explanation="TLC checks that the code's two-branch excess-width/height formulation lands the viewBox min corner where SVG 1.1 prescribes on the whole "
                     "universe (both aspect orderings and equality), and emits the abstract scale/landing for every vector; the real vb_scale is judged against it.")
